@@ -24,9 +24,10 @@ claim("C13", "exploration",
       "Every vote vector for n<=6 (7 thorough) members x every parameter value <= n+1 is applied to the real election "
       "objects and compared with the voting rule; ConfirmedElection is explored state by state (joint implementation/"
       "model graph, n<=4 (5), wait<=3 (4)) with icontract postconditions on counters and verdict domain; random vote "
-      "sequences for larger n; single election objects re-used over lists of varying length.  Exhaustive within those "
-      "bounds, sampled beyond them.",
-      TB + " Members are stubs exposing drift_state only.", "DESIGN.md 4 (C13)")
+      "sequences for larger n; single election objects re-used over lists of varying length; every drift count 0..n for every "
+      "ensemble size up to 40 (120) under whole and fractional thresholds; states handed over as literals, as equal-but-distinct "
+      "str objects (pickle round trip) and as numpy.str_.  Exhaustive within those bounds, sampled beyond them.",
+      TB + " Members are stubs exposing drift_state only.", "DESIGN.md 4 (C13), 9.5")
 
 claim("C05", "exploration",
       "runtime monitoring: executable-specification shadow models stepped in lock-step with the real detectors after "
@@ -113,7 +114,8 @@ claim("C11", "exploration",
       "ev_threshold, delta, both metrics, sample_period and online_scaling on/off; after every update drift_state, counters, "
       "num_pcs and every change score are compared with the specification (several drifts and rebuilt references per stream); "
       "periodic streams whose test window equals the reference window as a multiset must score exactly 0 with the intersection "
-      "metric.  Sampled.",
+      "metric; two detectors updated in turn must each reproduce their solo trace; online_scaling given as numpy.bool_ / 0 / 1 must "
+      "run in the mode its truth value says.  Sampled.",
       TB + " sklearn PCA/KDE/StandardScaler and scipy jensenshannon trusted; edge-prone histogram scores adopted (counted).",
       "DESIGN.md 4 (C11)")
 
@@ -162,8 +164,9 @@ claim("C01", "exploration",
       "inside warm-up; MD3 through its protocol): after every accepted update icontract postconditions check the state domain "
       "and 0 <= since-reset <= total, and an automaton that knows only the inputs and the property's restart table checks the "
       "exact counter values, that no warning/drift appears before the documented minimum of the epoch, and that "
-      "retraining_recs on drift is [start <= end == current index] and is not carried into the next epoch.  Sampled.",
-      TB + " The harness never calls reset().", "DESIGN.md 4 (C01)")
+      "retraining_recs on drift is [start <= end == current index] and is not carried into the next epoch.  `pair/` cases run two "
+      "detectors of one class in turn and compare every output of each with its solo run (no state shared between objects).  Sampled.",
+      TB + " The harness never calls reset() in the automaton cases.", "DESIGN.md 4 (C01), 9.5")
 
 claim("C02", "exploration",
       "runtime monitoring: twin differential - a freshly constructed detector per epoch (documented carry-over only) run beside "
@@ -196,9 +199,10 @@ claim("C17", "exploration",
 claim("C18", "exploration",
       "runtime monitoring: twin differential - every batch and the reference independently row-permuted (reversal, rotation, "
       "shuffles) under the same seed schedule; distances, public leaf counts, references and decision traces compared",
-      "HDDDM / CDBD (detect_batch 2/3) distances, KdqTreeBatch public node counts (hence divergences) and decisions, NN-DVI "
-      "decisions and reference contents must be identical between the original history and four row-permuted versions of it, "
-      "with equal and unequal batch sizes and duplicates; for detect_batch 2 the comparison stops where the position-dependent "
+      "HDDDM / CDBD (detect_batch 2/3) distances, KdqTreeBatch public node counts (hence divergences) and decisions, the NN-DVI "
+      "distance (read off the partitioner each update builds), decisions and reference contents must be identical between the original history and four row-permuted versions of it, "
+      "with equal and unequal batch sizes, duplicates, histories ordered by a feature, decimal grids, object arrays and frames with "
+      "unique / repeated / string row labels; for detect_batch 2 the comparison stops where the position-dependent "
       "bootstrap threshold lets the decision traces part.  Sampled.",
       TB, "DESIGN.md 4 (C18)")
 
